@@ -526,6 +526,25 @@ theorem is_hermitian_boson_iff_tol_bounded (D M : Nat) (hD : 0 < D) (hM : 0 < M)
   exact Proofs.C02.isclose_lat_eq D M hD hM tol ht h1 _ _ (sim a la)
     (sim _ (Proofs.C02.hcBoson_lat D a la)) bX bY t h
 
+/-- **`is_hermitian(QuadOperator)`, soundness** (the coded test does not normal-order — known
+finding F02e — so only this direction holds): on bounded lattice inputs, if the coded test is True
+then `A` and `hermitian_conjugated(A)` have the same coefficient on EVERY term, hence the same
+Spec coefficients `⟨x^out| · |x^s⟩` for every `ħ` and all exponent vectors. -/
+theorem is_hermitian_quad_sound (D M : Nat) (hD : 0 < D) (hM : 0 < M) (tol : Rat) (ht : 0 < tol)
+    (h1 : tol * ((D * M : Nat) : Rat) ≤ 1) (hbar : GQ)
+    (a : Op) (wa : Dict.WF a) (la : ∀ e ∈ a, Proofs.C03.Lat D e.2)
+    (bX : ∀ t, (Dict.getD a t 0).normSq ≤ (M : Rat) * M)
+    (bY : ∀ t, (Dict.getD (hcQuad a) t 0).normSq ≤ (M : Rat) * M)
+    (h : isHermitianQuad tol a = true) :
+    (∀ t, Dict.getD a t 0 = Dict.getD (hcQuad a) t 0) ∧
+    ∀ s out, Spec.GV.coeff (Spec.applyOp (.quad hbar) a s) out =
+      Spec.GV.coeff (Spec.applyOp (.quad hbar) (hcQuad a) s) out := by
+  unfold isHermitianQuad at h
+  have he := (isclose_exact_on_bounded_lattice D M hD hM tol ht h1 a (hcQuad a) la
+    (Proofs.C02.hcQuad_lat D a la) bX bY).1 h
+  exact ⟨he, fun s out => Proofs.C03.applyOp_coeff_congr (.quad hbar) (Spec.actQuad hbar) (fun _ _ => rfl)
+    a (hcQuad a) wa (Proofs.C02.wf_hcQuad a) he s out⟩
+
 -- non-vacuity: EQ_TOLERANCE with D = 2^16, M = 2^10
 example : Generated.eqTolerance * ((2 ^ 16 * 2 ^ 10 : Nat) : Rat) ≤ 1 := by
   norm_num [Generated.eqTolerance]
